@@ -33,6 +33,9 @@ CLAIMED = {
  "C12": ("proptest: rule documents assembled from valid parts with one generated perturbation; oracle = independent static analysis of the document model (accept => consistent) + O-template/reference transforms for accepted documents; cyclic documents loaded in a child process",
          "Randomised exploration: 10^4 (quick) to 3x10^5 (thorough) documents over 8 perturbation classes (undefined variable in fix / transform / constraints, unresolved matches / rewriter, cyclic transforms, same-node utility cycles through 9 operator shapes, no kind-determining key); every violating document must be rejected, every accepted document must expand each fix variable (string and object form, transformed variables) to the reference value and match only kinds of its kind set.",
          "Trusted: regex crate for `replace`; the construction of the pattern for the reference bindings (C02); only accept => consistent is claimed.", "DESIGN.md §5 C12"),
+ "C20": ("bounded-exhaustive enumeration (complete in the thorough tier, seed-sampled beyond length 4 in quick) of sigil spellings x 23 languages, An+B strings x 40 indices, substring arguments and fix templates against independent reference classifiers / parsers / Python-slice model",
+         "Exhaustive up to the stated bounds: all 55 986 strings over {$,A,B,a,1,_} of length <= 6 in every language, all 597 870 An+B candidates over {n,N,+,-,0-3,space} of length <= 6 on 40 sibling indices, all 23 716 substring cases, all 55 986 template strings; beyond the bounds nothing is claimed.",
+         "Trusted: the reference classifier/An+B parser/slice model written from the documentation; one leaf context per language; whitespace inside An+B is ignored as the implementation documents.", "DESIGN.md §5 C20"),
  "C19": ("proptest: generated sources (all languages, syntax errors, multi-byte) x start nodes; navigation API vs. plain recursion over raw tree-sitter child(i) (reference model)",
          "Randomised exploration of navigation invariants on every node of generated trees; traversals from generated start nodes against recursive reference orders; positions against O-pos recomputation.",
          "Trusted: tree-sitter child(i)/parent as ground truth; node identity = (id, byte range); zero-width parents excluded from the sibling clause as the property states.", "DESIGN.md §5 C19"),
